@@ -68,3 +68,44 @@ theorem getByIndexReads_le (t : Node K V) (i : Nat) (h : HeightOK t) : t.getByIn
     split <;> omega
 
 end Iavl
+
+namespace Iavl
+variable {K V : Type} [Ord K]
+
+/-- child fetches of `ImmutableTree.GetProof` (proof_ics23.go) on a persisted tree of which only the
+    root is in memory: `Has`, then either `PathToLeaf` (which fetches *both* children of every inner
+    node on the path) or `GetWithIndex`, `GetByIndex` of the two neighbours and one `PathToLeaf` each.
+    Hashing costs nothing: every persisted node carries its hash. -/
+def Node.proofReads (t : Node K V) (key : K) : Nat :=
+  t.hasReads key +
+  (if t.has key then 2 * t.getReads key
+   else
+     let idx := (t.get key).1
+     t.getReads key
+     + (if 1 ≤ idx then
+          t.getByIndexReads (idx - 1) +
+            (match t.getByIndex (idx - 1) with | some (lk, _) => 2 * t.getReads lk | none => 0)
+        else 0)
+     + t.getByIndexReads idx
+     + (match t.getByIndex idx with | some (rk, _) => 2 * t.getReads rk | none => 0))
+
+theorem pathReads_opt_le (t : Node K V) (h : HeightOK t) (o : Option (K × V)) :
+    (match o with | some (lk, _) => 2 * t.getReads lk | none => 0) ≤ 2 * t.height := by
+  cases o with
+  | none => simp
+  | some p => obtain ⟨lk, v⟩ := p; have := getReads_le_height t lk h; simp only []; omega
+
+theorem proofReads_le (t : Node K V) (key : K) (h : HeightOK t) : t.proofReads key ≤ 10 * t.height := by
+  unfold Node.proofReads
+  have h1 := hasReads_le_height t key h
+  have h2 := getReads_le_height t key h
+  split
+  · omega
+  · have h3 := getByIndexReads_le t ((t.get key).1 - 1) h
+    have h4 := getByIndexReads_le t (t.get key).1 h
+    have h5 := pathReads_opt_le t h (t.getByIndex ((t.get key).1 - 1))
+    have h6 := pathReads_opt_le t h (t.getByIndex (t.get key).1)
+    simp only []
+    split <;> omega
+
+end Iavl
